@@ -173,7 +173,7 @@ PROPS.update({
         "explanation": "component totality theorems (c08_*_partial) plus panic/timeout exploration of construction and matching on every generated and "
                        "degenerate case; Ok/Panic status of the modelled traversal compared with the implementation on every dumped automaton.",
         "technique": "catch_unwind + watchdog exploration over generated and degenerate inputs; Coq totality lemmas for components"},
-    "C10": {"subs": ["c10"], "level": "exploration",
+    "C10": {"subs": ["c10"], "level": "proof",
         "rule": "exhaustive: every ordered family of 1-3 not-equal sets over 3 (quick) / 4 (thorough) other keys on a common first key, each under "
                 "all 3^n node assignments; random: lists of 1-7 character constraints (strings, matrices), mixed port-graph constraint lists, "
                 "not-equal families with common or mixed first keys, conditioned(c, sat) calls, the helper constructors on plain data with "
@@ -183,8 +183,11 @@ PROPS.update({
         "assumptions": COMMON_ASSUMPTIONS + ["IsConnected / HasNodeWeight are treated as opaque atoms in the brute-force faithfulness oracle (their truth is "
                                              "drawn per (predicate, argument values)); IsNotEqual is evaluated on the node assignment"],
         "timeout": 3000,
-        "explanation": "every tree the implementation returns is compared node for node (labels, child order, make_det) with the extracted model; "
-                       "valid indices, presence of the smallest constraint and faithfulness are checked by brute force over all truth assignments / "
-                       "small hosts.",
-        "technique": "exact tree comparison with the Gallina model + brute-force faithfulness over all assignments"},
+        "explanation": "Theorems c10_*: valid indices, presence of the (index of the) smallest constraint and faithfulness are proved for "
+                       "with_children, with_pairwise_mutex, with_transitive_mutex, with_powerset (for every valuation under which conditioned is an "
+                       "equivalence; c10_pg_conditioned_equiv shows the port-graph conditioned is one under every node assignment) and for the "
+                       "string, matrix and port-graph decompositions (every valuation resp. every node assignment with arbitrary truth of the opaque "
+                       "predicates). Every tree the implementation returns is compared node for node (labels, child order, make_det) with the "
+                       "extracted model, and the three clauses are also checked by brute force over all truth assignments / small hosts.",
+        "technique": "Coq proof (loop invariants of with_powerset, depth-one invariant of with_children) + exact tree comparison with the model + brute-force faithfulness"},
 })
